@@ -106,6 +106,8 @@ type Effect struct {
 	base  ssa.Value // nil: unknown base (whole array)
 	param int       // index in fn.Params when base is a parameter, else -1
 	all   bool
+	dyn      bool   // with all: may run code chosen at run time (function values, open interface calls, recursion)
+	pkg      string // with all: package of the repo function whose body gave rise to the effect
 	ghost    bool   // with all: specification-only (ghost) state may change too (explicit "modifies *" of a contract)
 	arrField int    // >0: the location is the memory block arrBase(base, arrField-1) of an array-typed field
 }
@@ -234,7 +236,7 @@ func (p *Prog) effectsOfBlocks(so *Sorts, fn *ssa.Function, blocks []*ssa.BasicB
 							continue
 						}
 					}
-					addEff(Effect{all: true})
+					addEff(Effect{all: true, dyn: true, pkg: pkgOf(fn)})
 					continue
 				}
 				if fresh {
@@ -268,7 +270,7 @@ func (p *Prog) funcEffects(so *Sorts, fn *ssa.Function, visiting map[*ssa.Functi
 		return e
 	}
 	if visiting[fn] {
-		return []Effect{{all: true}}
+		return []Effect{{all: true, dyn: p.bodyHasDyn(so, fn), pkg: pkgOf(fn)}}
 	}
 	if c := p.contracts.get(funcKey(fn)); c != nil && c.HasMod {
 		return p.contractEffects(so, fn, c)
@@ -277,7 +279,7 @@ func (p *Prog) funcEffects(so *Sorts, fn *ssa.Function, visiting map[*ssa.Functi
 		if p.externPure(fn) {
 			return nil
 		}
-		return []Effect{{all: true}}
+		return []Effect{{all: true, pkg: "extern"}}
 	}
 	visiting[fn] = true
 	effs := p.effectsOfBlocks(so, fn, fn.Blocks, visiting)
@@ -286,7 +288,18 @@ func (p *Prog) funcEffects(so *Sorts, fn *ssa.Function, visiting map[*ssa.Functi
 	var out []Effect
 	for _, e := range effs {
 		if e.all {
-			out = []Effect{{all: true}}
+			// summarise: dyn if any all-effect is dyn; origin package = this function unless all are external
+			agg := Effect{all: true, pkg: pkgOf(fn), dyn: p.bodyHasDyn(so, fn)}
+			for _, e2 := range effs {
+				if e2.all {
+					agg.dyn = agg.dyn || e2.dyn
+					agg.ghost = agg.ghost || e2.ghost
+					if e2.pkg != "extern" && e2.pkg != "" && e2.pkg != pkgOf(fn) && importsEval(e2.pkg) {
+						agg.pkg = e2.pkg
+					}
+				}
+			}
+			out = []Effect{agg}
 			break
 		}
 		if e.param == -2 {
@@ -305,11 +318,11 @@ func (p *Prog) contractEffects(so *Sorts, fn *ssa.Function, c *Contract) []Effec
 	var out []Effect
 	for _, m := range c.Modifies {
 		if m == "*" {
-			return []Effect{{all: true, ghost: true}}
+			return []Effect{{all: true, ghost: true, dyn: p.bodyHasDyn(so, fn), pkg: pkgOf(fn)}}
 		}
 		if m == "heap" {
 			// everything except ghost (specification-only) state
-			out = append(out, Effect{all: true})
+			out = append(out, Effect{all: true, dyn: p.bodyHasDyn(so, fn), pkg: pkgOf(fn)})
 			continue
 		}
 		if strings.HasPrefix(m, "elems(") {
@@ -408,7 +421,10 @@ func (p *Prog) callEffects(so *Sorts, caller *ssa.Function, cc *ssa.CallCommon, 
 			}
 		}
 		if len(p.invokeTargets(cc)) == 0 {
-			return []Effect{{all: true}}
+			if n, ok := cc.Value.Type().(*types.Named); ok && n.Obj().Pkg() != nil && !strings.HasPrefix(n.Obj().Pkg().Path(), "grol.io/grol") {
+				return nil // interface declared outside the repo with no repo implementer: cannot touch modelled memory
+			}
+			return []Effect{{all: true, dyn: true, pkg: pkgOf(caller)}}
 		}
 		return out
 	}
@@ -442,7 +458,7 @@ func (p *Prog) callEffects(so *Sorts, caller *ssa.Function, cc *ssa.CallCommon, 
 		}
 		return out
 	}
-	return []Effect{{all: true}}
+	return []Effect{{all: true, dyn: true, pkg: pkgOf(caller)}}
 }
 
 func mapEffect(caller *ssa.Function, e Effect, callee *ssa.Function, args []ssa.Value) Effect {
@@ -661,12 +677,20 @@ func (ex *Exec) applyEffects(h *Heap, effs []Effect, l *Loop, guard Term) *Heap 
 				}
 			}
 			nh := ex.havocAllKeep(h, guard)
-			if ghostToo {
-				for k := range q.so.keySort {
-					if strings.HasPrefix(k, "GH:") {
-						nh.m[k] = q.fresh("hv_"+k, q.so.keySort[k])
-					}
+			keepEval := true
+			for _, e2 := range effs {
+				if e2.all && (e2.dyn || importsEval(e2.pkg)) {
+					keepEval = false
 				}
+			}
+			// code outside package eval (and not running caller-chosen code) cannot write eval's struct fields;
+			// ghost state changes only through explicit "modifies *" / "modifies ghost" clauses
+			nh.gen.parent = h.clone()
+			nh.gen.keep = func(k string) bool {
+				if keepEval && strings.HasPrefix(k, "F:grol.io/grol/eval.") {
+					return true
+				}
+				return !ghostToo && strings.HasPrefix(k, "GH:")
 			}
 			return nh
 		}
@@ -839,4 +863,101 @@ func fnPkg(f *ssa.Function) *types.Package {
 		return f.Object().Pkg()
 	}
 	return nil
+}
+
+func pkgOf(f *ssa.Function) string {
+	for f != nil && f.Pkg == nil && f.Parent() != nil {
+		f = f.Parent()
+	}
+	if f != nil && f.Pkg != nil {
+		return f.Pkg.Pkg.Path()
+	}
+	return "extern"
+}
+
+// importsEval: packages whose code can name eval.State (eval itself and its importers).
+func importsEval(pkg string) bool {
+	switch pkg {
+	case "grol.io/grol/eval", "grol.io/grol/repl", "grol.io/grol/extensions", "grol.io/grol", "grol.io/grol/wasm":
+		return true
+	}
+	return false
+}
+
+// bodyHasDyn: fn may (transitively, through static calls and interface dispatch to repo methods) execute a call
+// through a function value, i.e. run code chosen at run time.  Computed once for the whole repo as a backward
+// reachability over the call graph.
+func (p *Prog) bodyHasDyn(so *Sorts, fn *ssa.Function) bool {
+	if p.dynSet == nil {
+		p.dynSet = map[*ssa.Function]bool{}
+		callers := map[*ssa.Function][]*ssa.Function{}
+		var work []*ssa.Function
+		for _, f := range p.allFuncs() {
+			for _, b := range f.Blocks {
+				for _, ins := range b.Instrs {
+					ci, ok := ins.(ssa.CallInstruction)
+					if !ok {
+						continue
+					}
+					cc := ci.Common()
+					if cc.IsInvoke() {
+						ts := p.invokeTargets(cc)
+						if len(ts) == 0 {
+							if n, ok := cc.Value.Type().(*types.Named); ok && n.Obj().Pkg() != nil && strings.HasPrefix(n.Obj().Pkg().Path(), "grol.io/grol") {
+								if !p.dynSet[f] {
+									p.dynSet[f] = true
+									work = append(work, f)
+								}
+							}
+						}
+						for _, t := range ts {
+							callers[t] = append(callers[t], f)
+						}
+						continue
+					}
+					switch v := cc.Value.(type) {
+					case *ssa.Builtin:
+					case *ssa.Function:
+						callers[v] = append(callers[v], f)
+						// function values handed to external code are called by it
+						if len(v.Blocks) == 0 {
+							for _, a := range cc.Args {
+								switch av := a.(type) {
+								case *ssa.Function:
+									callers[av] = append(callers[av], f)
+								case *ssa.MakeClosure:
+									callers[av.Fn.(*ssa.Function)] = append(callers[av.Fn.(*ssa.Function)], f)
+								default:
+									if _, isSig := a.Type().Underlying().(*types.Signature); isSig {
+										if !p.dynSet[f] {
+											p.dynSet[f] = true
+											work = append(work, f)
+										}
+									}
+								}
+							}
+						}
+					case *ssa.MakeClosure:
+						callers[v.Fn.(*ssa.Function)] = append(callers[v.Fn.(*ssa.Function)], f)
+					default:
+						if !p.dynSet[f] {
+							p.dynSet[f] = true
+							work = append(work, f)
+						}
+					}
+				}
+			}
+		}
+		for len(work) > 0 {
+			f := work[len(work)-1]
+			work = work[:len(work)-1]
+			for _, c := range callers[f] {
+				if !p.dynSet[c] {
+					p.dynSet[c] = true
+					work = append(work, c)
+				}
+			}
+		}
+	}
+	return p.dynSet[fn]
 }
